@@ -374,13 +374,14 @@ func (b *Batch) BuildItems(keys []string, vet bool) *BuildResult {
 
 // Driver is a running driver process.
 type Driver struct {
-	cmd *exec.Cmd
-	in  io.WriteCloser
-	enc *json.Encoder
-	w   *bufio.Writer
-	dec *json.Decoder
-	n   int
-	mu  sync.Mutex
+	cmd    *exec.Cmd
+	in     io.WriteCloser
+	enc    *json.Encoder
+	w      *bufio.Writer
+	dec    *json.Decoder
+	n      int
+	mu     sync.Mutex
+	stderr *tailBuffer
 }
 
 type Req struct {
@@ -415,10 +416,23 @@ func (b *Batch) BuildDriver() (string, *BuildResult) {
 	return bin, &BuildResult{OK: err == nil, Output: out, PerItem: attribute(out)}
 }
 
-// Start launches n driver processes (a pool); Do round-robins over them.
-func StartDriver(bin string) (*Driver, error) {
+// DiedError: the driver process ended while requests were outstanding.
+type DiedError struct {
+	Done   []*Resp // responses received before it died
+	Stderr string
+}
+
+func (e *DiedError) Error() string { return "driver died: " + e.Stderr }
+
+func StartDriver(bin string) (*Driver, error) { return StartDriverLimited(bin, 0) }
+
+// StartDriverLimited launches the driver, optionally under an address-space limit.
+func StartDriverLimited(bin string, memKB int) (*Driver, error) {
 	cmd := exec.Command(bin)
-	cmd.Env = []string{"PATH=" + os.Getenv("PATH")}
+	if memKB > 0 {
+		cmd = exec.Command("bash", "-c", fmt.Sprintf("ulimit -v %d; exec %q", memKB, bin))
+	}
+	cmd.Env = []string{"PATH=" + os.Getenv("PATH"), "GOMAXPROCS=4"}
 	in, err := cmd.StdinPipe()
 	if err != nil {
 		return nil, err
@@ -427,13 +441,41 @@ func StartDriver(bin string) (*Driver, error) {
 	if err != nil {
 		return nil, err
 	}
-	cmd.Stderr = os.Stderr
+	eb := &tailBuffer{max: 4000}
+	cmd.Stderr = eb
 	if err := cmd.Start(); err != nil {
 		return nil, err
 	}
 	w := bufio.NewWriterSize(in, 1<<20)
-	d := &Driver{cmd: cmd, in: in, w: w, enc: json.NewEncoder(w), dec: json.NewDecoder(bufio.NewReaderSize(outp, 1<<20))}
+	d := &Driver{cmd: cmd, in: in, w: w, enc: json.NewEncoder(w), dec: json.NewDecoder(bufio.NewReaderSize(outp, 1<<20)), stderr: eb}
 	return d, nil
+}
+
+// tailBuffer keeps the first bytes written to it (the head of a Go fatal error
+// names the cause).
+type tailBuffer struct {
+	mu  sync.Mutex
+	b   []byte
+	max int
+}
+
+func (t *tailBuffer) Write(p []byte) (int, error) {
+	t.mu.Lock()
+	if len(t.b) < t.max {
+		n := t.max - len(t.b)
+		if n > len(p) {
+			n = len(p)
+		}
+		t.b = append(t.b, p[:n]...)
+	}
+	t.mu.Unlock()
+	return len(p), nil
+}
+
+func (t *tailBuffer) String() string {
+	t.mu.Lock()
+	defer t.mu.Unlock()
+	return string(t.b)
 }
 
 // Do sends a batch of requests and returns the responses in order.
@@ -457,7 +499,12 @@ func (d *Driver) Do(reqs []*Req) ([]*Resp, error) {
 	for i := range reqs {
 		var r Resp
 		if err := d.dec.Decode(&r); err != nil {
-			return nil, fmt.Errorf("driver died after %d of %d responses: %v", i, len(reqs), err)
+			time.Sleep(200 * time.Millisecond) // let stderr arrive
+			msg := d.stderr.String()
+			if k := strings.Index(msg, "\n\n"); k > 0 {
+				msg = msg[:k]
+			}
+			return nil, &DiedError{Done: out[:i], Stderr: strings.TrimSpace(msg)}
 		}
 		out[i] = &r
 	}
